@@ -545,13 +545,14 @@ impl Prop for RateHistory {
 pub fn history_strategy() -> impl Strategy<Value = History> {
     let names: Vec<String> = {
         let v = vocab();
-        let mut n: Vec<String> = vec!["usd", "USD", "try", "Try", "eur", "EUR", "gbp", "jpy", "sek", "dkk", "bgn", "tl", "dollar", "euro", "kr", "kroner", "leva", "$", "€", "₺", "aed", "AED", "zzz", "", "kg", "usdx", "us", "лв"].iter().map(|s| s.to_string()).collect();
+        let mut n: Vec<String> = vec!["usd", "USD", "try", "Try", "eur", "EUR", "gbp", "jpy", "sek", "dkk", "bgn", "tl", "dollar", "euro", "kr", "kroner", "leva", "$", "€", "₺", "aed", "AED", "aed", "cad", "cad", "CAD", "zzz", "", "kg", "usdx", "us", "лв"].iter().map(|s| s.to_string()).collect();
         n.extend(v.rated.iter().map(|c| c.key.clone()));
         n
     };
     let rate = prop_oneof![3 => (1u32..=2_000_000).prop_map(|v| v as f64 / 1000.0), 1 => prop_oneof![Just(1.0), Just(0.0001), Just(123456.789)]];
     let eval_shape = prop_oneof![
-        3 => (prop::sample::select(vec!["usd", "try", "eur", "gbp", "jpy", "sek", "dkk", "bgn"]), 1u8..5, prop::sample::select(vec!["usd", "try", "eur", "gbp", "jpy", "sek", "dkk", "bgn", "tl", "dollar"]), 1u32..100_000).prop_map(|(a, c, b, amt)| Shape::Convert(plain_lit(amt as f64 / 10.0, a), c, b.to_string(), 0, 0)),
+        // aed and cad have no rate in the shipped table: conversions with them are asserted once an update gave them one
+        3 => (prop::sample::select(vec!["usd", "try", "eur", "gbp", "jpy", "sek", "dkk", "bgn", "aed", "cad"]), 1u8..5, prop::sample::select(vec!["usd", "try", "eur", "gbp", "jpy", "sek", "dkk", "bgn", "tl", "dollar", "aed", "cad"]), 1u32..100_000).prop_map(|(a, c, b, amt)| Shape::Convert(plain_lit(amt as f64 / 10.0, a), c, b.to_string(), 0, 0)),
         1 => (prop::sample::select(vec!["usd", "try", "eur", "gbp"]), any::<bool>(), prop::sample::select(vec!["usd", "try", "eur", "jpy"])).prop_map(|(a, p, b)| Shape::AddSub(plain_lit(10.0, a), p, plain_lit(3.0, b))),
     ];
     let op = prop_oneof![2 => (prop::sample::select(names), rate).prop_map(|(n, r)| HOp::Update(n, r)), 3 => eval_shape.prop_map(HOp::Eval)];
